@@ -176,7 +176,7 @@ claim("C15",
       "finalisation copies the metadata dict, Orbit<->StateVector conversion keeps everything but the propagator, "
       "Cov.copy is complete and snapshots its state; the covariance pickles everything its constructor stores and `.base` "
       "of an unpickled object falls back on a view; the functions on the path of a frame change store only into objects they "
-      "created.",
+      "created; every `copy` method of the package (what the per-item copy calls) returns an object built in the call (R15.6).",
       "Not decided: behaviour for sequences of operations as executed (only the per-operation invariants that make any "
       "sequence safe). Known finding D31: Man objects inside the maneuvers list are shared by copy().",
       "ownership/freshness abstract interpretation + ast pattern rules (compute-then-commit, sibling agreement)", "§3 C15")
@@ -315,7 +315,7 @@ def main():
                  "to prove every function of the tree equal to the reference tree (E8, DESIGN section 9); only if that "
                  "fails is the violation reported. bvstatic/data/*.json are references frozen from the confirmed tree by "
                  "tools/freeze_*.py and are never written by a check. Besides its own rules every check runs generic "
-                 "clauses on the files / functions of its property (DESIGN section 10): SIG (parameter defaults), MEMO (no "
+                 "clauses on the files / functions of its property (DESIGN section 10): SIG (parameter defaults; a mutable default is only read), MEMO (no "
                  "untabled cache or registry), PIN / ANCHOR / FILE (the functions the property depends on, every function its "
                  "rules read, every other function and every class- or module-level name of its anchored files) and DEP (the "
                  "units outside the anchored files that the anchored code reads directly: a table frozen from the reference "
@@ -328,7 +328,7 @@ def main():
                  "into objects they created. INIT: the import-time statements of the package __init__ modules on the path of the "
                  "anchored files are the reference ones. The DEP table also attaches three cores (time: dates/date.py, dates/eop.py, "
                  "config.py; state: orbits/forms.py, statevector.py, orbit.py, constants.py, utils/node.py; frame: frames/*.py, "
-                 "utils/matrix.py, utils/memoize.py) to every property whose mechanism runs through them (DESIGN 11.5): a DEP report "
+                 "utils/matrix.py, utils/memoize.py; offset, for C02 / C20: the propagators, env/solarsystem.py, the JPL propagator) to every property whose mechanism runs through them (DESIGN 11.5, 11.11): a DEP report "
                  "means 'a dependency of this property changed and could not be proven equal', and names the unit; "
                  "BVSTATIC_NO_DEPS=1 gives the verdicts without it.",
     }
